@@ -140,6 +140,7 @@ pub fn entity_strategy(lens: BoxedStrategy<u64>) -> BoxedStrategy<EntitySpec> {
             headers,
             plan,
             faults: vec![],
+            tail: vec![],
         })
         .boxed()
 }
